@@ -25,6 +25,9 @@ CONFIGS = {
     "sec": {"have_security_ext": True, "have_lpae": False},
     "nosec": {"have_security_ext": False, "have_lpae": False},
     "lpae": {"have_security_ext": True, "have_lpae": True},
+    # Virtualization Extensions present, stage 2 disabled (HCR.VM = 0): in Non-secure state every table-walk access
+    # and the final address pass through second_stage_translate() unchanged
+    "virt": {"have_security_ext": True, "have_lpae": True, "have_virt_ext": True},
 }
 SCTLR_BASE = (1 << 22) | (1 << 23) | (0b1111 << 3)       # U, reserved-one bits; M/AFE/TRE/EE/HA per case
 # TEX remap: region 0 Strongly-ordered, 1 Device, 2/3/4/7 Normal, 5 reserved encoding, 6 IMPLEMENTATION DEFINED
